@@ -153,6 +153,31 @@ def compile_cpp(src, out, extra=(), std="c++17", opt="-O1", timeout=900):
     return out
 
 
+def run_resumable(binary, lines, timeout=6000, env=None, max_restarts=200):
+    """Feed one case per line to a scheduler harness that answers one line per case. A case whose threads cannot be finished
+    (deadlock / livelock under the schedule) makes the harness print `STUCK-EXIT ...` as that case's answer and exit with
+    status 3 (cpp/vsched.h); the harness is then restarted on the remaining cases. Returns (answers, crashed_at):
+    answers has one entry per case (None for cases never answered), crashed_at the index of a case that killed the
+    harness in any other way (or None)."""
+    answers = []
+    restarts = 0
+    t_end = time.time() + timeout
+    while len(answers) < len(lines):
+        rest = lines[len(answers):]
+        rc, out, err = sh([binary], input="".join(l + "\n" for l in rest).encode(), timeout=max(10, t_end - time.time()), env=env)
+        got = out.splitlines()
+        answers += got[: len(rest)]
+        if len(got) >= len(rest):
+            break
+        if rc == 3 and got and got[-1].startswith("STUCK-EXIT") and restarts < max_restarts:
+            restarts += 1
+            continue
+        crashed = len(answers)
+        answers += [None] * (len(lines) - len(answers))
+        return answers, crashed
+    return answers, None
+
+
 # ----------------------------------------------------------------------------- Coq
 HYGIENE_RE = re.compile(r"\b(Admitted|admit|Axiom|Axioms|Parameter|Parameters|Conjecture|Conjectures|Admit Obligations)\b|Unset Guard|bypass_check|type-in-type|impredicative-set")
 
